@@ -4017,6 +4017,38 @@ impl IceGatherer {
 
         const ACTIVE_PLACEHOLDER_PORT: u16 = 9;
 
+        // Candidate pairs are only formed within one address family. An agent that is
+        // bound to an IPv6 address connects from that family, so it has to advertise
+        // IPv6 active candidates; the IPv4 placeholders below can never pair with the
+        // peer's IPv6 passive candidate and ICE would stay in `Checking`.
+        if let Some(ip) = self
+            .config
+            .bind_ip
+            .as_deref()
+            .and_then(|s| s.parse::<IpAddr>().ok())
+            .filter(|ip| ip.is_ipv6())
+        {
+            if self.config.disable_ipv6 {
+                bail!("disable_ipv6 is set but bind_ip is IPv6");
+            }
+            if !ip.is_unspecified() {
+                self.push_candidate(IceCandidate::tcp(
+                    SocketAddr::new(ip, ACTIVE_PLACEHOLDER_PORT),
+                    1,
+                    "active",
+                ));
+            }
+            self.push_candidate(IceCandidate::tcp(
+                SocketAddr::new(
+                    IpAddr::V6(std::net::Ipv6Addr::UNSPECIFIED),
+                    ACTIVE_PLACEHOLDER_PORT,
+                ),
+                1,
+                "active",
+            ));
+            return Ok(());
+        }
+
         let mut bind_ips = vec![IpAddr::V4(Ipv4Addr::LOCALHOST)];
         if let Ok(local_ip) = get_local_ip()
             && !bind_ips.contains(&local_ip)
